@@ -139,6 +139,40 @@ class Extract:
                 return self.opt_expr(b["tail"], sub, depth + 1)
         return None
 
+    def alloc_builder(self, n):
+        """`(0..a).map(|_| (0..b).map(|_| vec![0.0; c]).collect()).collect()` -> [a, b, c] (outermost first)"""
+        ext = []
+        cur = strip(n)
+        while cur is not None and cur.get("k") == "mcall" and cur["name"] == "collect":
+            mp = strip(cur["recv"])
+            if not (mp.get("k") == "mcall" and mp["name"] == "map" and len(mp["args"]) == 1):
+                return None
+            rng = strip(mp["recv"])
+            if not (rng.get("k") == "struct" and rng["path"] == "std::ops::Range"):
+                return None
+            fs = dict((a, b) for a, b in rng["fs"])
+            if strip(fs["start"]).get("v") != "0":
+                return None
+            try:
+                ext.append(self.plain(fs["end"]))
+            except ValueError:
+                return None
+            cl = strip(mp["args"][0])
+            if cl.get("k") != "closure" or any(pat_binds(q) for q in cl["params"]):
+                return None
+            cur = strip(cl["body"])
+            while cur.get("k") == "blk" and not cur["b"]["stmts"]:
+                cur = strip(cur["b"]["tail"])
+        while cur is not None and cur.get("k") == "call" and cur["callee"].endswith("vec::from_elem"):
+            try:
+                ext.append(self.plain(cur["args"][1]))
+            except ValueError:
+                return None
+            cur = strip(cur["args"][0])
+        if cur is None or cur.get("k") != "lit" or not ext:
+            return None
+        return ext
+
     def bind_let(self, s, guards):
         pat, init = s["pat"], s["init"]
         if init is None:
@@ -172,6 +206,22 @@ class Extract:
                 if len(reads) == 1:
                     self.alias[p["hid"]] = list(reads.values())[0]
                     return
+            if i.get("k") == "if" and i["el"] is not None:
+                cn = strip(i["c"])
+                el = strip(i["el"])
+                while el.get("k") == "blk" and not el["b"]["stmts"] and el["b"]["tail"] is not None:
+                    el = strip(el["b"]["tail"])
+                el_stmts = el["b"]["stmts"] if el.get("k") == "blk" else [el]
+                exits = el.get("k") in ("continue", "break") or (len(el_stmts) == 1 and strip(el_stmts[0]).get("k") in ("continue", "break"))
+                if cn.get("k") == "bin" and cn["op"] in ("Ge", "Le", "Gt", "Lt") and exits:
+                    try:
+                        g = self.plain(cn)
+                        v = self.plain(i["th"])
+                        self.env[p["hid"]] = v
+                        guards.append(g)
+                        return
+                    except ValueError:
+                        pass
             # checked_sub idiom
             if i.get("k") == "match":
                 try:
@@ -181,6 +231,12 @@ class Extract:
                 if oe is not None:
                     self.env[p["hid"]] = oe[0]
                     guards.append(oe[1])
+                    return
+            if i.get("k") == "mcall" and i["name"] == "collect":
+                ext = self.alloc_builder(i)
+                if ext is not None:
+                    self.allocs[p["hid"]] = ext
+                    self.names[p["hid"]] = p["name"]
                     return
             if i.get("mac") == "vec" or (i.get("k") == "call" and i["callee"].endswith("vec::from_elem")):
                 ext = []
